@@ -269,16 +269,20 @@ def ens_cases(draw, tier):
     c['mode'] = draw(st.sampled_from(['solve', 'solve', 'step', 'step', 'solve_step']))
     if c['map'] == 'forked':        # one process per member and map call: run to completion, default bounds mode
         c['mode'] = 'solve'; c['tight'] = None
+    # step-wise runs may hand constraints / penalty to the first Step as keywords (documented inputs of Step)
+    c['kw_first'] = c['mode'] == 'step' and c['as'] == 'class' and draw(st.booleans())
+    # an evaluation monitor that already holds records (the documented way to hand legacy data to an ensemble)
+    c['legacy_evals'] = draw(st.sampled_from([0, 0, 0, 2, 5])) if c['as'] == 'class' else 0
     return c
 
 
 # --------------------------------------------------------------------------- building and running an ensemble
-def configure(t, case, con, pen):
+def configure(t, case, con, pen, direct=False):
     """the settings every member is to be subject to (applied to the ensemble, and to a nested instance)"""
     t.SetStrictRanges(FL(case['lo']), FL(case['hi']), tight=case.get('tight'), clip=case.get('clip'))
-    if con is not None:
+    if con is not None and (direct or not case.get('kw_first')):
         t.SetConstraints(con)
-    if pen is not None:
+    if pen is not None and (direct or not case.get('kw_first')):
         t.SetPenalty(pen)
     t.SetEvaluationLimits(case.get('maxiter'), case.get('maxfun'))
     term = lab.make_termination(case.get('term', 'never'))
@@ -319,10 +323,21 @@ def build(case):
     else:
         s.SetNestedSolver(K)
     configure(s, case, con, pen)
+    if case.get('legacy_evals'):
+        from mystic.monitors import Monitor
+        mon = Monitor()
+        mid = [0.5 * (a + b) for a, b in zip(FL(case['lo']), FL(case['hi']))]
+        for _j in range(case['legacy_evals']):
+            mon(list(mid), 123.0)
+        s.SetEvaluationMonitor(mon)
     sink = {}
     m = harness_map(case['map'], case['order_seed'], sink, dim)
     if m is not None:
         s.SetMapper(m)
+    s._vp_first_kw = {}
+    if case.get('kw_first'):
+        if con is not None: s._vp_first_kw['constraints'] = con
+        if pen is not None: s._vp_first_kw['penalty'] = pen
     return s, cost, pen, sink
 
 
@@ -359,7 +374,7 @@ def run_ensemble(case, ctx):
         cap = case['maxiter'] + 5       # generation 0 is a Step of its own, and the stop is reported one Step later
         msg = None
         for k in range(cap):
-            msg = s.Step(disp=0)
+            msg = s.Step(disp=0, **(s._vp_first_kw if k == 0 else {}))
             steps += 1
             ok, d = best_ok(s)
             ctx.expect(ok, 'C09.best', lambda: dict(where, boundary=k, **d))
@@ -370,6 +385,8 @@ def run_ensemble(case, ctx):
         ctx.expect(bool(msg), 'C09.member', lambda: dict(where, note='no stop reported although every member has had maxiter+5 steps',
                                                          steps=steps, maxiter=case['maxiter'], all_iters=[int(g) for g in s._all_iters]))
 
+    if case.get('kw_first'): ctx.label('constraints/penalty-as-Step-keywords')
+    if case.get('legacy_evals'): ctx.label('evaluation-monitor-with-legacy-records')
     members = list(s._allSolvers)
     # ---- C09.count
     ctx.expect(len(members) == N and all(m is not None for m in members), 'C09.count',
@@ -459,7 +476,7 @@ def run_ensemble(case, ctx):
         for i, m in enumerate(members):
             t = K(dim)
             t.SetInitialPoints(list(starts[i]))
-            configure(t, case, lab.Constraint(case['constraint']) if case.get('constraint') else None, pen)
+            configure(t, case, lab.Constraint(case['constraint']) if case.get('constraint') else None, pen, direct=True)
             t.Solve(twin_cost, disp=0)
             got = (float(m.bestEnergy), lab.fvec(m.bestSolution), int(m.generations), int(m.evaluations))
             ref = (float(t.bestEnergy), lab.fvec(t.bestSolution), int(t.generations), int(t.evaluations))
